@@ -117,11 +117,13 @@ def probe_attributes():
         m = re.match(r'#\[(given|when|then)\((.*)\)\]\s*$', ln.strip())
         if not m:
             continue
-        fn = re.search(r'fn (\w+)', src[i + 1])
+        fn = next(re.search(r'fn (\w+)', src[j]) for j in range(i + 1, min(i + 6, len(src))) if re.search(r'fn (\w+)', src[j]))
         arg = m.group(2).strip()
         if arg.startswith('regex'):
             lit = re.search(r'r?"(.*)"', arg).group(1)
             out.append((fn.group(1), m.group(1), 'regex', lit, i + 1))
+        elif arg.startswith('expr'):
+            out.append((fn.group(1), m.group(1), 'expr', re.search(r'"(.*)"', arg).group(1), i + 1))
         else:
             out.append((fn.group(1), m.group(1), 'literal', re.search(r'"(.*)"', arg).group(1), i + 1))
     return out
@@ -152,6 +154,16 @@ def registration(chk):
         ex = interp.Exec(prog2, M, loop_bound=6)
         chk.execs.append(ex)
         res = {}
+
+        def expand_model(ex_, info, a, dty, M=M):
+            # cucumber-expressions (another crate) turns the expression into a regex; what it is given is what matters here
+            s_ = M.str_of(ex_, a[0])
+            txt = s_.text if isinstance(s_, Obj) and s_.kind == 'str' else None
+            if txt and txt.startswith('"') and txt.endswith('"'):
+                txt = txt[1:-1].replace('\\\\', '\\')
+            return Adt(dty or 'Result<Regex, E>', {(0, 0): Obj('regex', pattern=None, expr=txt)}, 0)
+        M.table['<impl>::regex_with_parameters'] = expand_model
+        M.table['Expression::regex_with_parameters'] = expand_model
 
         line_of = [line]
 
@@ -190,13 +202,18 @@ def registration(chk):
         locs = [ex.materialize(v_) for k_, v_ in entry.fields.items() if isinstance(ex.materialize(v_), Adt) and 'Location' in ex.materialize(v_).ty]
         # the wrapper: one of the entry's closures is the parent of the async block that calls this function
         clos = [ex.materialize(v_) for v_ in entry.fields.values() if isinstance(ex.materialize(v_), Adt) and ex.materialize(v_).ty.startswith('{closure@')]
-        wrapper_parent = ws.get(fname, (None, None, None))[1]
-        if wrapper_parent is None or not any(ex.prog.closure_body(c_.ty) is wrapper_parent for c_ in clos):
-            bad.append((fname, 'the entry\'s function is not the wrapper of %s' % fname))
+        # (a function with several attributes has one wrapper per attribute: the one generated at THIS attribute)
+        parents = [t_[1] for t_ in macro_probe.wrappers_all(prog2).get(fname, []) if re.search(r'src/lib\.rs:%d:' % line, t_[1].name)]
+        if len(parents) != 1 or not any(ex.prog.closure_body(c_.ty) is parents[0] for c_ in clos):
+            bad.append((fname, 'the entry\'s function is not the wrapper of %s generated at this attribute' % fname))
         rx = val['regex']
         pat = getattr(rx, 'pattern', None) if isinstance(rx, Obj) else None
         want = '^%s$' % rust_regex_escape(atext) if akind == 'literal' else atext
-        if pat != want:
+        if akind == 'expr':
+            got_expr = getattr(rx, 'expr', None) if isinstance(rx, Obj) else None
+            if got_expr != atext:
+                bad.append((fname, 'the expression expanded is %r, the attribute says %r' % (got_expr, atext)))
+        elif pat != want:
             bad.append((fname, 'the regex is %r, the attribute says %r' % (pat, want)))
     if bad and o.verdict != 'inconclusive':
         o.verdict = 'violated'
